@@ -254,6 +254,10 @@ def build_cases(tier, seed):
         # every third generated scenario adds the hostile generator (a pure function of seed, sim time and vehicle id,
         # SHA-256 based): all activities and rejection paths get exercised for order dependence as well
         ctrl = {"stack": ["Dispatcher", "ChargingFleetManager", {"hostile": {"p": 0.2, "seed": 7}}]} if name.startswith("tie") and j % 3 == 2 else None
+        if name.startswith("tie") and j % 3 == 1:
+            # a generator that draws from the process-wide random module (as examples/cosim_custom_dispatcher.py does):
+            # loading a scenario seeds it, so its draws are the same in every process
+            ctrl = {"stack": ["Dispatcher", "ChargingFleetManager", {"random_draw": {"k": 2}}]}
         if name.startswith("queue"):
             ctrl = {"stack": ["ChargingFleetManager", {"benign_queue": {"p_leave": 0.05, "p_abandon": 0.02, "seed": 3}}]}
         for k, hs in enumerate(hss):
@@ -285,7 +289,7 @@ def main(tier, seed):
             "the multiset of canonicalised events of each step and the summary statistics; any difference is a violation with the first diverging step and entity as witness. Scenarios are tie-rich: equally ranked plug types, stations at equal "
             "grid distance in different search cells, vehicles in several fleets, nested tariff regions, several id naming schemes, plus the shipped denver_demo_fleets scenario. non-trivial = a scenario in which the code faced at least one counted tie; distinct = scenario"
         )
-        v.assumptions = ["built-in controllers only (determinism of a user's controller is the user's business)", "the scenario generator itself is hash-seed independent (random.Random(seed), no set iteration)"]
+        v.assumptions = ["built-in controllers, the SHA-256 based hostile generator and one generator that draws from the random module seeded by load_scenario (the determinism of any other user controller is the user's business)", "the scenario generator itself is hash-seed independent (random.Random(seed), no set iteration)"]
         by_scen: Dict[str, List[Dict[str, Any]]] = {}
         for r in results:
             if "steps" in r and "scenario" in r:
